@@ -1056,6 +1056,16 @@ class Evaluator:
             return TOP
         if isinstance(l, MaxMin) or isinstance(r, MaxMin):
             return TOP
+        # Python itself refuses these operand types: that is an exception of the analysed program
+        plain = (str, set, frozenset, dict, list, tuple, type(None), Sym, Text)
+        if isinstance(l, plain) and isinstance(r, plain + (int, float)) or isinstance(r, plain) and isinstance(l, plain + (int, float)):
+            textual = (str, Sym, Text)
+            if isinstance(op, (ast.Sub, ast.Div, ast.FloorDiv, ast.Pow, ast.MatMult)) and (isinstance(l, textual) or isinstance(r, textual)) and not isinstance(l, (set, frozenset)):
+                raise Raised("TypeError", node, f"unsupported operand type(s) for {type(op).__name__}")
+            if isinstance(op, ast.Add) and (isinstance(l, (set, frozenset, dict)) or isinstance(r, (set, frozenset, dict)) or l is None or r is None):
+                raise Raised("TypeError", node, f"unsupported operand type(s) for +")
+            if isinstance(op, (ast.Sub, ast.Mult, ast.Div)) and (l is None or r is None or isinstance(l, dict) or isinstance(r, dict)):
+                raise Raised("TypeError", node, f"unsupported operand type(s) for {type(op).__name__}")
         # both operands are known but the operation is not modelled: no verdict rather than a guess
         raise Unmodelled(f"operator {type(op).__name__} on {type(l).__name__} and {type(r).__name__}", node)
 
